@@ -5,19 +5,453 @@ import TzVerif.Model.TimeZone
 import TzVerif.Spec.Zone
 
 namespace TzVerif.Proofs
-open TzVerif.Model
+open TzVerif.Model TzVerif.Gen
+
 
 theorem satSub_ge_iff (a b m : Int) (ha : i64Min ≤ a ∧ a ≤ i64Max) (hb : i64Min ≤ b ∧ b ≤ i64Max)
     (hm : i64Min < m ∧ m ≤ i64Max) : satSubI64 a b ≥ m ↔ a - b ≥ m := by
-  sorry
+  have _ := ha; have _ := hb
+  unfold satSubI64
+  by_cases h1 : a - b < i64Min
+  · rw [if_pos h1]; simp only [i64Min, i64Max] at *; omega
+  · rw [if_neg h1]
+    by_cases h2 : a - b > i64Max
+    · rw [if_pos h2]; simp only [i64Min, i64Max] at *; omega
+    · rw [if_neg h2]
+
+theorem satSubI32_eq (a b : Int) :
+    (a - b < i32Min ∧ satSubI32 a b = i32Min) ∨ (a - b > i32Max ∧ satSubI32 a b = i32Max) ∨
+    (i32Min ≤ a - b ∧ a - b ≤ i32Max ∧ satSubI32 a b = a - b) := by
+  unfold satSubI32
+  by_cases h1 : a - b < i32Min
+  · rw [if_pos h1]; exact .inl ⟨h1, rfl⟩
+  · rw [if_neg h1]
+    by_cases h2 : a - b > i32Max
+    · rw [if_pos h2]; exact .inr (.inl ⟨h2, rfl⟩)
+    · rw [if_neg h2]; exact .inr (.inr ⟨by omega, by omega, rfl⟩)
+
+theorem satAbsI32_eq_one_iff (d : Int) : satAbsI32 d = 1 ↔ (d = 1 ∨ d = -1) := by
+  unfold satAbsI32 absI
+  by_cases h1 : d = i32Min
+  · rw [if_pos h1]; simp only [i32Min, i32Max] at *; omega
+  · rw [if_neg h1]
+    by_cases h2 : d < 0
+    · rw [if_pos h2]; simp only [i32Min] at *; omega
+    · rw [if_neg h2]; simp only [i32Min] at *; omega
 
 theorem satAbs_satSub_eq_one_iff (a b : Int) (ha : i32Min ≤ a ∧ a ≤ i32Max) (hb : i32Min ≤ b ∧ b ≤ i32Max) :
     satAbsI32 (satSubI32 a b) = 1 ↔ (a - b = 1 ∨ a - b = -1) := by
-  sorry
+  have _ := ha; have _ := hb
+  rw [satAbsI32_eq_one_iff]
+  have := satSubI32_eq a b
+  simp only [i32Min, i32Max] at *
+  omega
+
+theorem isDesignationChar_iff (b : Nat) :
+    isDesignationChar b = true ↔
+      ((48 ≤ b ∧ b ≤ 57) ∨ (65 ≤ b ∧ b ≤ 90) ∨ (97 ≤ b ∧ b ≤ 122) ∨ b = 43 ∨ b = 45) := by
+  unfold isDesignationChar
+  simp only [Bool.or_eq_true, Bool.and_eq_true, decide_eq_true_eq, beq_iff_eq]
+  omega
+
+theorem equal_iff (a b : LocalTimeType) : a.equal b = true ↔ a = b := by
+  cases a; cases b
+  simp [LocalTimeType.equal, and_assoc]
+
+theorem allDesignationChars_iff (n : List Nat) :
+    allDesignationChars n = true ↔ ∀ b ∈ n, isDesignationChar b = true := by
+  induction n with
+  | nil => simp [allDesignationChars]
+  | cons x xs ih =>
+    simp only [allDesignationChars, List.mem_cons, forall_eq_or_imp]
+    cases hx : isDesignationChar x <;> simp [ih]
+
+theorem allDesignationChars_false (n : List Nat) (h : allDesignationChars n = false) :
+    ∃ b ∈ n, isDesignationChar b = false := by
+  induction n with
+  | nil => simp [allDesignationChars] at h
+  | cons x xs ih =>
+    simp only [allDesignationChars] at h
+    cases hx : isDesignationChar x
+    · exact ⟨x, by simp, hx⟩
+    · simp [hx] at h
+      obtain ⟨b, hb, hb'⟩ := ih h
+      exact ⟨b, by simp [hb], hb'⟩
+
+theorem lenGuard_iff (n : List Nat) :
+    (guardNameMinLen ≤ (n.length : Int) && (n.length : Int) ≤ guardNameMaxLen) = true ↔ 3 ≤ n.length ∧ n.length ≤ 7 := by
+  simp only [Bool.and_eq_true, decide_eq_true_eq]
+  simp only [guardNameMinLen, guardNameMaxLen]
+  omega
+
+theorem tzAsciiNew_ok_iff (n r : List Nat) :
+    TzAsciiStr.new n = .ok r ↔ r = n ∧ 3 ≤ n.length ∧ n.length ≤ 7 ∧ ∀ b ∈ n, isDesignationChar b = true := by
+  unfold TzAsciiStr.new
+  rw [← allDesignationChars_iff]
+  have hg := lenGuard_iff n
+  cases hl : (guardNameMinLen ≤ (n.length : Int) && (n.length : Int) ≤ guardNameMaxLen)
+  · rw [hl] at hg; simp [hl]; intro _ h1 h2; exact absurd (hg.2 ⟨h1, h2⟩) (by simp)
+  · rw [hl] at hg
+    have := hg.1 rfl
+    cases h3 : allDesignationChars n
+    · simp [hl]
+    · simp [hl, this]; exact eq_comm
+
+theorem tzAsciiNew_err (n : List Nat) (e : LocalTimeTypeError) (h : TzAsciiStr.new n = .error e) :
+    (e = .invalidTimeZoneDesignationLength ∧ ¬ (3 ≤ n.length ∧ n.length ≤ 7)) ∨
+       (e = .invalidTimeZoneDesignationChar ∧ 3 ≤ n.length ∧ n.length ≤ 7 ∧ ∃ b ∈ n, isDesignationChar b = false) := by
+  unfold TzAsciiStr.new at h
+  have hg := lenGuard_iff n
+  cases hl : (guardNameMinLen ≤ (n.length : Int) && (n.length : Int) ≤ guardNameMaxLen)
+  · rw [hl] at hg
+    simp [hl] at h
+    left; exact ⟨h.symm, fun hh => by simpa using hg.2 hh⟩
+  · rw [hl] at hg
+    have := hg.1 rfl
+    cases h3 : allDesignationChars n
+    · simp [hl, h3] at h
+      right; exact ⟨h.symm, this.1, this.2, allDesignationChars_false n h3⟩
+    · simp [hl, h3] at h
+
+theorem lttNew_ok_iff (off : Int) (dst : Bool) (name : Option (List Nat)) (t : LocalTimeType) :
+    LocalTimeType.new off dst name = .ok t ↔
+      (t = { utOffset := off, isDst := dst, name := name } ∧ off ≠ i32Min ∧
+       (match name with
+        | none => True
+        | some n => 3 ≤ n.length ∧ n.length ≤ 7 ∧ ∀ b ∈ n, isDesignationChar b = true)) := by
+  unfold LocalTimeType.new
+  by_cases ho : off = i32Min
+  · simp [ho]
+  · rw [if_neg ho]
+    cases name with
+    | none => simp [ho]; exact eq_comm
+    | some n =>
+      simp only
+      cases hn : TzAsciiStr.new n with
+      | error e =>
+        simp only [reduceCtorEq, false_iff]
+        rintro ⟨_, _, h1, h2, h3⟩
+        have := (tzAsciiNew_ok_iff n n).2 ⟨rfl, h1, h2, h3⟩
+        rw [hn] at this; cases this
+      | ok r =>
+        have := (tzAsciiNew_ok_iff n r).1 hn
+        obtain ⟨rfl, h1, h2, h3⟩ := this
+        simp only [Except.ok.injEq]
+        constructor
+        · intro h; exact ⟨h.symm, ho, h1, h2, h3⟩
+        · intro h; exact h.1.symm
+
+theorem lttNew_errors (off : Int) (dst : Bool) (name : Option (List Nat)) (e : LocalTimeTypeError)
+    (h : LocalTimeType.new off dst name = .error e) :
+    (e = .invalidUtcOffset ∧ off = i32Min) ∨
+    (∃ n, name = some n ∧ off ≠ i32Min ∧
+      ((e = .invalidTimeZoneDesignationLength ∧ ¬ (3 ≤ n.length ∧ n.length ≤ 7)) ∨
+       (e = .invalidTimeZoneDesignationChar ∧ 3 ≤ n.length ∧ n.length ≤ 7 ∧ ∃ b ∈ n, isDesignationChar b = false))) := by
+  unfold LocalTimeType.new at h
+  by_cases ho : off = i32Min
+  · rw [if_pos ho] at h; cases h; exact .inl ⟨rfl, ho⟩
+  · rw [if_neg ho] at h
+    cases name with
+    | none => cases h
+    | some n =>
+      simp only at h
+      cases hn : TzAsciiStr.new n with
+      | error e' =>
+        rw [hn] at h; cases h
+        exact .inr ⟨n, rfl, ho, tzAsciiNew_err n e hn⟩
+      | ok r => rw [hn] at h; cases h
+
+
+
+theorem checkTransitions_ok_iff (n : Nat) (ts : List Transition) :
+    checkTransitions n ts = .ok () ↔ (∀ t ∈ ts, t.localTimeTypeIndex < n) ∧ Spec.StrictlyIncreasing ts := by
+  fun_induction checkTransitions n ts with
+  | case1 => simp [Spec.StrictlyIncreasing]
+  | case2 t tl h =>
+    simp only [reduceCtorEq, false_iff]
+    intro hh
+    have := hh.1 t (by simp)
+    omega
+  | case3 t h =>
+    simp only [Spec.StrictlyIncreasing, List.mem_singleton, forall_eq, true_iff, and_true]
+    omega
+  | case4 t h t' tl h2 =>
+    simp only [reduceCtorEq, false_iff, Spec.StrictlyIncreasing]
+    intro hh
+    have := hh.2.1
+    omega
+  | case5 t h t' tl h2 ih =>
+    rw [ih]
+    simp only [Spec.StrictlyIncreasing, List.mem_cons, forall_eq_or_imp]
+    constructor
+    · rintro ⟨⟨a, b⟩, c⟩; exact ⟨⟨by omega, a, b⟩, by omega, c⟩
+    · rintro ⟨⟨_, a, b⟩, _, c⟩; exact ⟨⟨a, b⟩, c⟩
+
+theorem checkTransitions_err (n : Nat) (ts : List Transition) (e : TzError)
+    (h : checkTransitions n ts = .error e) :
+    (e = .timeZone .invalidLocalTimeTypeIndex ∧ ¬ (∀ t ∈ ts, t.localTimeTypeIndex < n)) ∨
+    (e = .timeZone .invalidTransition ∧ ¬ Spec.StrictlyIncreasing ts) := by
+  fun_induction checkTransitions n ts with
+  | case1 => cases h
+  | case2 t tl h1 =>
+    cases h
+    refine .inl ⟨rfl, fun hh => ?_⟩
+    have := hh t (by simp)
+    omega
+  | case3 t h1 => cases h
+  | case4 t h1 t' tl h2 =>
+    cases h
+    refine .inr ⟨rfl, fun hh => ?_⟩
+    have := hh.1
+    omega
+  | case5 t h1 t' tl h2 ih =>
+    rcases ih h with ⟨he, hn⟩ | ⟨he, hn⟩
+    · exact .inl ⟨he, fun hh => hn fun x hx => hh x (List.mem_cons_of_mem _ hx)⟩
+    · exact .inr ⟨he, fun hh => hn hh.2⟩
+
+theorem leapGuard_iff (x0 x1 : LeapSecond)
+    (h0 : i64Min ≤ x0.unixLeapTime ∧ x0.unixLeapTime ≤ i64Max ∧ i32Min ≤ x0.correction ∧ x0.correction ≤ i32Max)
+    (h1 : i64Min ≤ x1.unixLeapTime ∧ x1.unixLeapTime ≤ i64Max ∧ i32Min ≤ x1.correction ∧ x1.correction ≤ i32Max) :
+    (decide (satSubI64 x1.unixLeapTime x0.unixLeapTime ≥ SECONDS_PER_28_DAYS - guardLeapMinIntervalSlack) &&
+      satAbsI32 (satSubI32 x1.correction x0.correction) == 1) = true ↔
+    (x1.unixLeapTime - x0.unixLeapTime ≥ 2419199 ∧
+      (x1.correction - x0.correction = 1 ∨ x1.correction - x0.correction = -1)) := by
+  have hc : SECONDS_PER_28_DAYS - guardLeapMinIntervalSlack = 2419199 := by decide
+  rw [Bool.and_eq_true, decide_eq_true_eq, beq_iff_eq, hc,
+    satSub_ge_iff _ _ 2419199 ⟨h1.1, h1.2.1⟩ ⟨h0.1, h0.2.1⟩ (by decide),
+    satAbs_satSub_eq_one_iff _ _ h1.2.2 h0.2.2]
+
+theorem checkLeapPairs_ok_iff (ls : List LeapSecond) (hr : Spec.LeapInRange ls) :
+    checkLeapPairs ls = .ok () ↔ Spec.LeapStepsOK ls := by
+  fun_induction checkLeapPairs ls with
+  | case1 => simp [Spec.LeapStepsOK]
+  | case2 x => simp [Spec.LeapStepsOK]
+  | case3 x0 x1 rest dt dc h =>
+    simp only [reduceCtorEq, false_iff, Spec.LeapStepsOK]
+    intro hh
+    have := (leapGuard_iff x0 x1 (hr x0 (by simp)) (hr x1 (by simp))).2 ⟨hh.1, hh.2.1⟩
+    simp only [dt, dc] at h
+    rw [this] at h
+    cases h
+  | case4 x0 x1 rest dt dc h ih =>
+    rw [ih (fun l hl => hr l (List.mem_cons_of_mem _ hl))]
+    simp only [Spec.LeapStepsOK]
+    simp only [dt, dc, Bool.not_eq_true', Bool.not_eq_false] at h
+    have := (leapGuard_iff x0 x1 (hr x0 (by simp)) (hr x1 (by simp))).1 h
+    exact ⟨fun hh => ⟨this.1, this.2, hh⟩, fun hh => hh.2.2⟩
+
+theorem checkLeapPairs_err (ls : List LeapSecond) (e : TzError) (h : checkLeapPairs ls = .error e) :
+    e = .timeZone .invalidLeapSecond := by
+  fun_induction checkLeapPairs ls with
+  | case1 => cases h
+  | case2 x => cases h
+  | case3 x0 x1 rest dt dc h1 => cases h; rfl
+  | case4 x0 x1 rest dt dc h1 ih => exact ih h
+
+theorem tryIntoI32_err (v : Int) (e : TzError) (h : tryIntoI32 v = .error e) : e = .outOfRange := by
+  unfold tryIntoI32 at h
+  split at h
+  · cases h
+  · cases h; rfl
+
+theorem fromTimespec_err (u ns : Int) (e : TzError) (h : UtcDateTime.fromTimespec u ns = .error e) : e = .outOfRange := by
+  unfold UtcDateTime.fromTimespec at h
+  simp only at h
+  split at h
+  · cases h; rfl
+  · split at h
+    · cases h; exact tryIntoI32_err _ _ (by assumption)
+    · cases h
+
+theorem ruleFind_err (r : TransitionRule) (ut : Int) (e : TzError) (h : r.findLocalTimeType ut = .error e) :
+    e = .outOfRange := by
+  cases r with
+  | fixed t => cases h
+  | alternate a =>
+    simp only [TransitionRule.findLocalTimeType, AlternateTime.findLocalTimeType] at h
+    split at h
+    · cases h; exact fromTimespec_err _ _ _ (by assumption)
+    · split at h
+      · cases h; rfl
+      · split at h <;> cases h
+
+theorem leapToUnix_err (ls : List LeapSecond) (t : Int) (e : TzError) (h : unixLeapTimeToUnixTime ls t = .error e) :
+    e = .outOfRange := by
+  unfold unixLeapTimeToUnixTime at h
+  split at h
+  · cases h; rfl
+  · simp only at h
+    repeat' (split at h)
+    all_goals (cases h <;> rfl)
+
+
+
+/-- last stage of `check_inputs` (the trailing rule against the last transition) -/
+def ruleStage (z : TimeZone) : Except TzError Unit :=
+  match z.extraRule, z.transitions.getLast? with
+  | some rule, some last =>
+    let lastType := z.localTimeTypes.getD last.localTimeTypeIndex default
+    match unixLeapTimeToUnixTime z.leapSeconds last.unixLeapTime with
+    | .error e => .error e
+    | .ok ut =>
+      match rule.findLocalTimeType ut with
+      | .error e => .error e
+      | .ok rt => if !(lastType.equal rt) then .error (.timeZone .inconsistentExtraRule) else .ok ()
+  | _, _ => .ok ()
+
+/-- the test on the first leap record -/
+def leapFirstOk : List LeapSecond → Bool
+  | [] => true
+  | l :: _ => l.unixLeapTime ≥ 0 && satAbsI32 l.correction == 1
+
+/-- leap table stage of `check_inputs`, followed by `k` -/
+def leapStage (ls : List LeapSecond) (k : Except TzError Unit) : Except TzError Unit :=
+  if !(leapFirstOk ls) then .error (.timeZone .invalidLeapSecond) else
+  match checkLeapPairs ls with
+  | .error e => .error e
+  | .ok () => k
+
+theorem checkInputs_eq (z : TimeZone) :
+    z.checkInputs =
+      if z.localTimeTypes.length = 0 then .error (.timeZone .noLocalTimeType) else
+      match checkTransitions z.localTimeTypes.length z.transitions with
+      | .error e => .error e
+      | .ok () => leapStage z.leapSeconds (ruleStage z) := rfl
+
+
+theorem leapWF_iff (ls : List LeapSecond) :
+    Spec.LeapWF ls ↔ leapFirstOk ls = true ∧ Spec.LeapStepsOK ls := by
+  cases ls with
+  | nil => simp [Spec.LeapWF, leapFirstOk]
+  | cons l rest =>
+    simp only [Spec.LeapWF, leapFirstOk, Bool.and_eq_true, decide_eq_true_eq, beq_iff_eq, satAbsI32_eq_one_iff]
+
+theorem leapStage_ok_iff (ls : List LeapSecond) (k : Except TzError Unit) (hr : Spec.LeapInRange ls) :
+    leapStage ls k = .ok () ↔ Spec.LeapWF ls ∧ k = .ok () := by
+  unfold leapStage
+  rw [leapWF_iff]
+  have h2 := checkLeapPairs_ok_iff ls hr
+  cases hfo : leapFirstOk ls
+  · simp
+  · cases hc : checkLeapPairs ls with
+    | error e =>
+      rw [hc] at h2
+      simp only [reduceCtorEq, false_iff] at h2
+      simp [h2]
+    | ok u =>
+      have hs := h2.1 (by rw [hc])
+      simp [hs]
+
+theorem leapStage_err (ls : List LeapSecond) (k : Except TzError Unit) (hr : Spec.LeapInRange ls) (e : TzError)
+    (h : leapStage ls k = .error e) :
+    (e = .timeZone .invalidLeapSecond ∧ ¬ Spec.LeapWF ls) ∨ (Spec.LeapWF ls ∧ k = .error e) := by
+  unfold leapStage at h
+  rw [leapWF_iff]
+  have h2 := checkLeapPairs_ok_iff ls hr
+  cases hfo : leapFirstOk ls
+  · rw [hfo] at h
+    simp only [Bool.not_false, if_true] at h
+    cases h
+    exact .inl ⟨rfl, by simp⟩
+  · rw [hfo] at h
+    simp only [Bool.not_true, Bool.false_eq_true, if_false] at h
+    cases hc : checkLeapPairs ls with
+    | error e' =>
+      rw [hc] at h; cases h
+      rw [hc] at h2
+      simp only [reduceCtorEq, false_iff] at h2
+      exact .inl ⟨checkLeapPairs_err _ _ hc, fun hh => h2 hh.2⟩
+    | ok u =>
+      rw [hc] at h
+      exact .inr ⟨⟨rfl, h2.1 (by rw [hc])⟩, h⟩
+
+theorem ruleStage_ok_iff (z : TimeZone) : ruleStage z = .ok () ↔ Spec.RuleConsistent z := by
+  unfold ruleStage Spec.RuleConsistent
+  cases hr : z.extraRule with
+  | none => simp
+  | some r =>
+  cases hl : z.transitions.getLast? with
+  | none => simp
+  | some last =>
+    simp only
+    cases hu : unixLeapTimeToUnixTime z.leapSeconds last.unixLeapTime with
+    | error e => simp
+    | ok ut =>
+      simp only
+      cases hf : r.findLocalTimeType ut with
+      | error e => simp [hf]
+      | ok rt =>
+        simp only
+        cases heq : (z.localTimeTypes.getD last.localTimeTypeIndex default).equal rt
+        · have : ¬ (z.localTimeTypes.getD last.localTimeTypeIndex default) = rt := by
+            rw [← equal_iff, heq]; simp
+          simp only [Bool.not_false, if_true, reduceCtorEq, false_iff]
+          rintro ⟨ut', rt', h1, h2, h3⟩
+          cases h1
+          rw [hf] at h2; cases h2
+          exact this h3.symm
+        · have := (equal_iff _ _).1 heq
+          simp only [Bool.not_true, Bool.false_eq_true, if_false, true_iff]
+          exact ⟨ut, rt, rfl, hf, this.symm⟩
+
+theorem ruleStage_err (z : TimeZone) (e : TzError) (h : ruleStage z = .error e) :
+    (e = .timeZone .inconsistentExtraRule ∧
+      ∃ r last ut rt, z.extraRule = some r ∧ z.transitions.getLast? = some last ∧
+        unixLeapTimeToUnixTime z.leapSeconds last.unixLeapTime = .ok ut ∧ r.findLocalTimeType ut = .ok rt ∧
+        rt ≠ z.localTimeTypes.getD last.localTimeTypeIndex default) ∨
+    (e = .outOfRange ∧
+      ∃ r last, z.extraRule = some r ∧ z.transitions.getLast? = some last ∧
+        (unixLeapTimeToUnixTime z.leapSeconds last.unixLeapTime = .error e ∨
+         ∃ ut, unixLeapTimeToUnixTime z.leapSeconds last.unixLeapTime = .ok ut ∧ r.findLocalTimeType ut = .error e)) := by
+  unfold ruleStage at h
+  split at h
+  · rename_i r last hr hl
+    simp only at h
+    cases hu : unixLeapTimeToUnixTime z.leapSeconds last.unixLeapTime with
+    | error e' =>
+      rw [hu] at h; cases h
+      exact .inr ⟨leapToUnix_err _ _ _ hu, r, last, hr, hl, .inl hu⟩
+    | ok ut =>
+      rw [hu] at h
+      simp only at h
+      cases hf : r.findLocalTimeType ut with
+      | error e' =>
+        rw [hf] at h; cases h
+        exact .inr ⟨ruleFind_err _ _ _ hf, r, last, hr, hl, .inr ⟨ut, hu, hf⟩⟩
+      | ok rt =>
+        rw [hf] at h
+        simp only at h
+        cases heq : (z.localTimeTypes.getD last.localTimeTypeIndex default).equal rt
+        · rw [heq] at h
+          cases h
+          refine .inl ⟨rfl, r, last, ut, rt, hr, hl, hu, hf, fun hh => ?_⟩
+          rw [hh, (equal_iff _ _).2 rfl] at heq
+          cases heq
+        · rw [heq] at h; cases h
+  · cases h
 
 theorem checkInputs_ok_iff (z : TimeZone) (hr : Spec.LeapInRange z.leapSeconds) :
     z.checkInputs = .ok () ↔ Spec.WFZone z := by
-  sorry
+  rw [checkInputs_eq]
+  unfold Spec.WFZone Spec.IndexesOK
+  by_cases h0 : z.localTimeTypes.length = 0
+  · rw [if_pos h0]
+    have : z.localTimeTypes = [] := List.length_eq_zero_iff.mp h0
+    simp [this]
+  · rw [if_neg h0]
+    have hne : z.localTimeTypes ≠ [] := fun h => h0 (by rw [h]; rfl)
+    have hct := checkTransitions_ok_iff z.localTimeTypes.length z.transitions
+    cases hc : checkTransitions z.localTimeTypes.length z.transitions with
+    | error e =>
+      rw [hc] at hct
+      simp only [reduceCtorEq, false_iff] at hct ⊢
+      rintro ⟨_, hi, hs, _⟩
+      exact hct ⟨hi, hs⟩
+    | ok u =>
+      obtain ⟨hi, hs⟩ := hct.1 (by rw [hc])
+      simp only
+      rw [leapStage_ok_iff _ _ hr, ruleStage_ok_iff]
+      exact ⟨fun h => ⟨hne, hi, hs, h.1, h.2⟩, fun h => ⟨h.2.2.2.1, h.2.2.2.2⟩⟩
 
 /-- what each error of the constructor blames -/
 def Blame (z : TimeZone) : TzError → Prop
@@ -40,31 +474,28 @@ def Blame (z : TimeZone) : TzError → Prop
 
 theorem checkInputs_error_blames (z : TimeZone) (hr : Spec.LeapInRange z.leapSeconds) (e : TzError)
     (h : z.checkInputs = .error e) : Blame z e := by
-  sorry
-
-theorem lttNew_ok_iff (off : Int) (dst : Bool) (name : Option (List Nat)) (t : LocalTimeType) :
-    LocalTimeType.new off dst name = .ok t ↔
-      (t = { utOffset := off, isDst := dst, name := name } ∧ off ≠ i32Min ∧
-       (match name with
-        | none => True
-        | some n => 3 ≤ n.length ∧ n.length ≤ 7 ∧ ∀ b ∈ n, isDesignationChar b = true)) := by
-  sorry
-
-theorem lttNew_errors (off : Int) (dst : Bool) (name : Option (List Nat)) (e : LocalTimeTypeError)
-    (h : LocalTimeType.new off dst name = .error e) :
-    (e = .invalidUtcOffset ∧ off = i32Min) ∨
-    (∃ n, name = some n ∧ off ≠ i32Min ∧
-      ((e = .invalidTimeZoneDesignationLength ∧ ¬ (3 ≤ n.length ∧ n.length ≤ 7)) ∨
-       (e = .invalidTimeZoneDesignationChar ∧ 3 ≤ n.length ∧ n.length ≤ 7 ∧ ∃ b ∈ n, isDesignationChar b = false))) := by
-  sorry
-
-/-- the character class is exactly [A-Za-z0-9+-] -/
-theorem isDesignationChar_iff (b : Nat) :
-    isDesignationChar b = true ↔
-      ((48 ≤ b ∧ b ≤ 57) ∨ (65 ≤ b ∧ b ≤ 90) ∨ (97 ≤ b ∧ b ≤ 122) ∨ b = 43 ∨ b = 45) := by
-  sorry
-
-theorem equal_iff (a b : LocalTimeType) : a.equal b = true ↔ a = b := by
-  sorry
+  rw [checkInputs_eq] at h
+  by_cases h0 : z.localTimeTypes.length = 0
+  · rw [if_pos h0] at h
+    cases h
+    exact List.length_eq_zero_iff.mp h0
+  · rw [if_neg h0] at h
+    have hne : z.localTimeTypes ≠ [] := fun h => h0 (by rw [h]; rfl)
+    cases hc : checkTransitions z.localTimeTypes.length z.transitions with
+    | error e' =>
+      rw [hc] at h
+      cases h
+      rcases checkTransitions_err _ _ _ hc with ⟨rfl, hn⟩ | ⟨rfl, hn⟩
+      · exact ⟨hne, hn⟩
+      · exact ⟨hne, hn⟩
+    | ok u =>
+      obtain ⟨hi, hs⟩ := (checkTransitions_ok_iff _ _).1 (show _ = Except.ok () by rw [hc])
+      rw [hc] at h
+      simp only at h
+      rcases leapStage_err _ _ hr e h with ⟨rfl, hn⟩ | ⟨hw, hk⟩
+      · exact ⟨hne, hi, hs, hn⟩
+      · rcases ruleStage_err z e hk with ⟨rfl, hex⟩ | ⟨rfl, hex⟩
+        · exact ⟨hne, hi, hs, hw, hex⟩
+        · exact ⟨hne, hi, hs, hw, hex⟩
 
 end TzVerif.Proofs
